@@ -287,15 +287,14 @@ Section WalkFacts.
     rewrite (ancestors_chain t Hnd n Hn) in Hf |- *. destruct (a_parent t n) as [p|] eqn:Hp; [|cbn; f_equal; lia].
     rewrite (IH p (S acc) (parent_in n p Hp)) by (cbn in Hf; lia). cbn [length]. f_equal. lia.
   Qed.
-  Theorem depth_spec n : In n (ids t) -> is_tag n = true \/ is_text n = true \/ a_parent t n <> None ->
-    w_depth parent is_tag is_text fc n = Ok (a_depth t n).
+  Theorem depth_spec n : In n (ids t) -> w_depth parent is_tag fc n = Ok (a_depth t n).
   Proof.
-    intros Hn Hk. unfold w_depth, a_depth. destruct (is_tag n) eqn:Htag.
+    intros Hn. unfold w_depth, a_depth. destruct (is_tag n) eqn:Htag.
     - rewrite (tag_depth_spec fc n 0 Hn (ancestors_bound n)). reflexivity.
-    - rewrite (Hparent n Hn). cbn [rbind]. rewrite (ancestors_chain t Hnd n Hn). destruct (a_parent t n) as [p|] eqn:Hp.
-      + rewrite (tag_depth_spec fc p 0 (parent_in n p Hp) (ancestors_bound p)). reflexivity.
-      + destruct Hk as [Hk|[Hk|Hk]]; [discriminate|rewrite Hk; reflexivity|congruence].
+    - rewrite (Hparent n Hn). cbn [rbind]. rewrite (ancestors_chain t Hnd n Hn). destruct (a_parent t n) as [p|] eqn:Hp; [|reflexivity].
+      rewrite (tag_depth_spec fc p 0 (parent_in n p Hp) (ancestors_bound p)). reflexivity.
   Qed.
+
   (* ---------------------------------------------------------------- preceding axis *)
   Lemma filter_all {A} (P : A -> bool) l : (forall x, P x = true) -> filter P l = l.
   Proof. intros H. induction l as [|x r IH]; [reflexivity|]. cbn. rewrite H, IH. reflexivity. Qed.
